@@ -30,6 +30,7 @@ type obs struct {
 	idx uint64
 	res string
 	ws  memdb.WatchSet
+	bad bool // the query failed (an RPC would return the error at once) or its answer is not a function of the state
 }
 
 // reported is what Server.SetQueryMeta makes of the index a query function stored (copied; the e2e
@@ -53,14 +54,25 @@ func fired(ws memdb.WatchSet) bool {
 }
 
 type sweep struct {
-	qs   []*query
-	last []obs
+	qs    []*query
+	last  []obs
+	twice bool // evaluate every query twice and discard answers that differ on the same state (map-order dependent)
+	run   *hx.Run
 }
 
 func (sw *sweep) eval(st *state.Store, q *query) obs {
 	ws := memdb.NewWatchSet()
 	idx, res := guard(func() (uint64, string) { return q.Run(st, ws) })
-	return obs{idx, res, ws}
+	o := obs{idx: idx, res: res, ws: ws, bad: strings.HasPrefix(res, "err")}
+	if sw.twice && !o.bad {
+		if i2, r2 := guard(func() (uint64, string) { return q.Run(st, nil) }); i2 != idx || r2 != res {
+			o.bad = true
+			if sw.run != nil {
+				sw.run.Tag("unstable-answer:" + q.Kind)
+			}
+		}
+	}
+	return o
 }
 
 func newSweep(st *state.Store, qs []*query) *sweep {
@@ -98,6 +110,13 @@ func (sw *sweep) across(run *hx.Run, st *state.Store, wi *writeInfo, replay func
 		sw.last[i] = after
 		if strings.HasPrefix(after.res, "panic(") || strings.Contains(after.res, "unmapped(") {
 			run.Violate("harness:unclassified-answer:"+q.Kind, q.name()+" answered "+after.res, replay())
+		}
+		if before.bad || after.bad {
+			run.Tag("no-verdict(error-or-unstable):" + q.Kind)
+			if emit != nil {
+				emit(v)
+			}
+			continue
 		}
 		rb, ra := reported(before.idx), reported(after.idx)
 		if after.idx == 0 {
@@ -154,6 +173,7 @@ type blocked struct {
 	done    chan struct{}
 	meta    structs.QueryMeta
 	res     string
+	raw     uint64 // the index the query function stored, before SetQueryMeta
 	elapsed time.Duration
 }
 
@@ -169,7 +189,7 @@ func block(srv *consul.VerifC06Server, q *query, cur obs) *blocked {
 		first := true
 		_ = srv.BlockingQuery(b.min, e2eMaxTime, &b.meta, func(ws memdb.WatchSet, st *state.Store) error {
 			idx, res := guard(func() (uint64, string) { return q.Run(st, ws) })
-			b.meta.Index, b.res = idx, res
+			b.meta.Index, b.res, b.raw = idx, res, idx
 			if first {
 				first = false
 				close(started)
@@ -204,7 +224,7 @@ func settle(run *hx.Run, bs []*blocked, wi *writeInfo, replay func() []string) {
 			// index has lost nothing yet, but one blocked on b.min was not released by the change itself
 			sig := ""
 			if wi.shape != nil {
-				sig = wi.shape(b.q, obs{idx: b.min, res: b.before}, obs{idx: b.meta.Index, res: b.res})
+				sig = wi.shape(b.q, obs{idx: b.min, res: b.before}, obs{idx: b.raw, res: b.res})
 			}
 			if sig == "" {
 				sig = "e2e:blocked-query-not-released-by-change:" + b.q.Kind + ":" + wi.kind
